@@ -33,6 +33,7 @@ package server
 
 import (
 	"context"
+	"encoding/json"
 	"fmt"
 	"os"
 	"path/filepath"
@@ -119,6 +120,13 @@ type vX01Fire struct {
 	srv, group, member string
 }
 
+// an expiry callback held before it proposes the removal (see DoWait with park)
+type vX01Parked struct {
+	srv, group, member string
+	release            chan struct{}
+	done               chan error
+}
+
 // vX01Listener remembers the index of the last command the server's FSM has applied
 // (listeners are called at the end of Server.Apply)
 type vX01Listener struct{ last uint64 }
@@ -135,6 +143,9 @@ type vX01Cluster struct {
 	fires      []vX01Fire
 	wrapped    map[*consumerGroup]bool
 	inflight   int32
+	parking    map[string]bool // group ids whose expiry callbacks are to be held
+	parked     []*vX01Parked
+	intent     string // file that says what this worker is doing (read when the process dies)
 }
 
 func (c *vX01Cluster) srv(id string) *Server {
@@ -156,7 +167,7 @@ func vX01Config(cfg *Config, dir, id string) {
 }
 
 func vX01Start(t *testing.T, w int) *vX01Cluster {
-	c := &vX01Cluster{t: t, w: w, wrapped: map[*consumerGroup]bool{}}
+	c := &vX01Cluster{t: t, w: w, wrapped: map[*consumerGroup]bool{}, parking: map[string]bool{}}
 	c.cfgA = vOneNodeConfig(t, fmt.Sprintf("x01-%d-a", w))
 	vX01Config(c.cfgA, fmt.Sprintf("x01-%d-a", w), "a")
 	c.a = vOneNodeServer(t, c.cfgA)
@@ -268,14 +279,49 @@ func (c *vX01Cluster) observe(id string) {
 		g.mu.Lock()
 		orig := g.memberExpiredHandler
 		g.memberExpiredHandler = func(groupID, consumerID string) error {
-			atomic.AddInt32(&c.inflight, 1)
-			defer atomic.AddInt32(&c.inflight, -1)
 			c.mu.Lock()
 			c.fires = append(c.fires, vX01Fire{sid, groupID, consumerID})
+			var pk *vX01Parked
+			if c.parking[groupID] {
+				pk = &vX01Parked{srv: sid, group: groupID, member: consumerID,
+					release: make(chan struct{}), done: make(chan error, 1)}
+				c.parked = append(c.parked, pk)
+			}
 			c.mu.Unlock()
+			if pk != nil {
+				<-pk.release
+				err := orig(groupID, consumerID)
+				pk.done <- err
+				return err
+			}
+			atomic.AddInt32(&c.inflight, 1)
+			defer atomic.AddInt32(&c.inflight, -1)
 			return orig(groupID, consumerID)
 		}
 		g.mu.Unlock()
+	}
+}
+
+func (c *vX01Cluster) parkedOf(id string) []*vX01Parked {
+	c.mu.Lock()
+	defer c.mu.Unlock()
+	out := []*vX01Parked{}
+	for _, p := range c.parked {
+		if p.group == id {
+			out = append(out, p)
+		}
+	}
+	return out
+}
+
+func (c *vX01Cluster) unpark(p *vX01Parked) {
+	c.mu.Lock()
+	defer c.mu.Unlock()
+	for i, q := range c.parked {
+		if q == p {
+			c.parked = append(append([]*vX01Parked{}, c.parked[:i]...), c.parked[i+1:]...)
+			return
+		}
 	}
 }
 
@@ -324,6 +370,7 @@ type vX01State struct {
 	Tmr     map[string][]string `json:"tmr"`
 	Fo      vX01Fo              `json:"fo"`
 	Pend    []vX01Pend          `json:"pend"`
+	Pendx   [][]string          `json:"pendx"`
 	Views   map[string]vX01View `json:"views"`
 }
 
@@ -332,6 +379,8 @@ type vX01Obs struct {
 	Err   string     `json:"err"`
 	Fired [][]string `json:"fired"`
 	Acc   []string   `json:"acc"`
+	Rej   []string   `json:"rej"`
+	Asg   [][]interface{} `json:"asg"`
 	Crash string     `json:"crash"`
 }
 
@@ -378,7 +427,7 @@ func (r *vX01Run) view(s *Server) (vX01View, []string) {
 
 func (r *vX01Run) state() vX01State {
 	st := vX01State{Tmr: map[string][]string{}, Views: map[string]vX01View{}, Fo: vX01Fo{Wit: []string{}},
-		Pend: []vX01Pend{}}
+		Pend: []vX01Pend{}, Pendx: [][]string{}}
 	for _, sid := range []string{"a", "b"} {
 		v, tm := r.view(r.c.srv(sid))
 		st.Views[sid] = v
@@ -404,6 +453,10 @@ func (r *vX01Run) state() vX01State {
 	for _, x := range r.pend {
 		st.Pend = append(st.Pend, vX01Pend{M: x.M, C: x.C, E: x.E})
 	}
+	for _, x := range r.c.parkedOf(r.gid) {
+		st.Pendx = append(st.Pendx, []string{x.srv, x.member})
+	}
+	sort.Slice(st.Pendx, func(i, j int) bool { return st.Pendx[i][0]+st.Pendx[i][1] < st.Pendx[j][0]+st.Pendx[j][1] })
 	return st
 }
 
@@ -517,9 +570,23 @@ func (r *vX01Run) heartbeat(s *Server, m string, e uint64) (err error) {
 			err = fmt.Errorf("panic:%v", p)
 		}
 	}()
-	_, err = s.api.FetchConsumerGroupAssignments(ctx, &client.FetchConsumerGroupAssignmentsRequest{
-		GroupId: r.gid, ConsumerId: m, Epoch: e})
+	_, err = r.fetch(ctx, s, m, e)
 	return err
+}
+
+func (r *vX01Run) fetch(ctx context.Context, s *Server, m string, e uint64) ([]int32, error) {
+	resp, err := s.api.FetchConsumerGroupAssignments(ctx, &client.FetchConsumerGroupAssignmentsRequest{
+		GroupId: r.gid, ConsumerId: m, Epoch: e})
+	if err != nil {
+		return nil, err
+	}
+	parts := []int32{}
+	for _, a := range resp.Assignments {
+		if a.Stream == vX01Stream {
+			parts = append(parts, a.Partitions...)
+		}
+	}
+	return parts, nil
 }
 
 func (r *vX01Run) report(s *Server, m, c string, e uint64) error {
@@ -538,13 +605,20 @@ type vX01Keep struct {
 	wg   sync.WaitGroup
 	mu   sync.Mutex
 	acc  map[string]bool
+	rej  map[string]bool // well-behaved members that were refused (other than for a moved epoch)
 }
 
 func (r *vX01Run) keepalive(hb map[string]string) *vX01Keep {
-	k := &vX01Keep{stop: make(chan struct{}), acc: map[string]bool{}}
+	k := &vX01Keep{stop: make(chan struct{}), acc: map[string]bool{}, rej: map[string]bool{}}
+	isMember := map[string]bool{}
+	if g := r.c.group(r.c.a, r.gid); g != nil {
+		for m := range g.GetMembers() {
+			isMember[m] = true
+		}
+	}
 	for m, mode := range hb {
-		if mode == "none" {
-			continue
+		if mode == "none" || (mode == "good" && !isMember[m]) {
+			continue // (a consumer that is not in the group has nothing to keep alive)
 		}
 		k.wg.Add(1)
 		go func(m, mode string) {
@@ -573,9 +647,12 @@ func (r *vX01Run) keepalive(hb map[string]string) *vX01Keep {
 									r.doubt = true
 								}
 								lastOK = start
+							} else {
+								// a refusal is an observation; the member just keeps trying
+								k.mu.Lock()
+								k.rej[m] = true
+								k.mu.Unlock()
 							}
-							// a refusal (expired member, server away for a moment) is not the
-							// driver's business: the member just keeps trying
 						}
 					case "stale":
 						if s := r.c.srv(coord); s != nil {
@@ -608,15 +685,19 @@ func (r *vX01Run) keepalive(hb map[string]string) *vX01Keep {
 	return k
 }
 
-func (k *vX01Keep) end() []string {
+func (k *vX01Keep) end() ([]string, []string) {
 	close(k.stop)
 	k.wg.Wait()
-	out := []string{}
+	acc, rej := []string{}, []string{}
 	for m := range k.acc {
-		out = append(out, m)
+		acc = append(acc, m)
 	}
-	sort.Strings(out)
-	return out
+	for m := range k.rej {
+		rej = append(rej, m)
+	}
+	sort.Strings(acc)
+	sort.Strings(rej)
+	return acc, rej
 }
 
 // settle waits until no expiry handler is running
@@ -629,31 +710,44 @@ func (r *vX01Run) settle() {
 
 // lastRound: the surviving well-behaved members fetch once more; the next phase
 // (in which no timer may fire) starts with this round
-func (r *vX01Run) lastRound(hb map[string]string) {
+func (r *vX01Run) lastRound(hb map[string]string) [][]interface{} {
+	asg := [][]interface{}{}
 	r.phaseStart = time.Now()
 	coord, _, ok := r.cur()
 	s := r.c.srv(coord)
 	if !ok || s == nil {
-		return
+		return asg
 	}
 	g := r.c.group(s, r.gid)
 	if g == nil {
-		return
+		return asg
 	}
+	ms := []string{}
 	for m, mode := range hb {
 		if mode == "good" && g.IsMember(m) {
-			_, e := g.GetCoordinator()
-			if err := r.heartbeat(s, m, e); err != nil {
-				r.doubt = true
-			}
+			ms = append(ms, m)
 		}
 	}
+	sort.Strings(ms)
+	for _, m := range ms {
+		ctx, cancel := context.WithTimeout(context.Background(), vX01Deadline)
+		_, e := g.GetCoordinator()
+		parts, err := r.fetch(ctx, s, m, e)
+		cancel()
+		if err == nil {
+			for _, p := range parts {
+				asg = append(asg, []interface{}{m, int(p)})
+			}
+		}
+		// a refusal here shows in what TLC is given (no assignment for a member)
+	}
+	return asg
 }
 
 func (r *vX01Run) step(step map[string]interface{}) (ev vX01Event) {
 	a := vStr(step, "a")
 	args := map[string]interface{}{}
-	obs := vX01Obs{A: a, Acc: []string{}}
+	obs := vX01Obs{A: a, Acc: []string{}, Rej: []string{}, Asg: [][]interface{}{}}
 	long := false
 	t0 := time.Now()
 	defer func() { vX01Stat(a, time.Since(t0)) }()
@@ -742,6 +836,11 @@ func (r *vX01Run) step(step map[string]interface{}) (ev vX01Event) {
 				hbArg[m] = mode
 			}
 			args["hb"] = hbArg
+			park := vBool(step, "park")
+			args["park"] = park
+			r.c.mu.Lock()
+			r.c.parking[r.gid] = park
+			r.c.mu.Unlock()
 			fired := make(chan struct{})
 			tw := time.Now()
 			canary := time.AfterFunc(vX01T, func() { close(fired) })
@@ -757,12 +856,49 @@ func (r *vX01Run) step(step map[string]interface{}) (ev vX01Event) {
 			}
 			time.Sleep(vX01T / 2)
 			r.settle()
-			obs.Acc = k.end()
+			obs.Acc, obs.Rej = k.end()
 			r.settle()
+			r.c.mu.Lock()
+			delete(r.c.parking, r.gid)
+			r.c.mu.Unlock()
 			if err := r.c.sync(); err != nil {
 				panic(err)
 			}
-			r.lastRound(hb)
+			obs.Asg = r.lastRound(hb)
+		case "ExpireApply":
+			sid, m := vStr(step, "s"), vStr(step, "m")
+			args["s"], args["m"] = sid, m
+			var pk *vX01Parked
+			for _, x := range r.c.parkedOf(r.gid) {
+				if x.srv == sid && x.member == m {
+					pk = x
+				}
+			}
+			if pk == nil {
+				obs.A, a = "Skip", "Skip"
+				return
+			}
+			close(pk.release)
+			var err error
+			select {
+			case err = <-pk.done:
+			case <-time.After(vX01Deadline):
+				panic("expiry callback did not return")
+			}
+			r.c.unpark(pk)
+			if err != nil {
+				switch {
+				case strings.Contains(err.Error(), ErrConsumerNotMember.Error()):
+					obs.Err = "notmember"
+				case strings.Contains(err.Error(), ErrConsumerGroupNotFound.Error()):
+					obs.Err = "nogroup"
+				default:
+					obs.Err = "other:" + err.Error()
+				}
+			}
+			// the callback goes on after the proposal (it re-arms the timer when the
+			// proposal failed): let it finish
+			time.Sleep(3 * time.Millisecond)
 		case "Lose":
 			raft := r.c.a.getRaft()
 			if err := r.c.a.leadershipLost(raft); err != nil {
@@ -874,6 +1010,11 @@ func (r *vX01Run) cleanup() {
 		<-slot.done
 	}
 	r.pend = nil
+	for _, pk := range r.c.parkedOf(r.gid) {
+		close(pk.release)
+		<-pk.done
+		r.c.unpark(pk)
+	}
 	if g := r.c.group(r.c.a, r.gid); g != nil {
 		for m := range g.GetMembers() {
 			ctx, cancel := context.WithTimeout(context.Background(), vX01Deadline)
@@ -888,19 +1029,43 @@ func (r *vX01Run) cleanup() {
 	r.c.takeFires(r.gid)
 }
 
+// noteIntent writes down what this worker is about to do: when a server's panic
+// kills the process, the check reads the events recorded so far and the step in
+// flight from here (the death is then the observation of that step)
+func (c *vX01Cluster) noteIntent(id int, evs []vX01Event, step map[string]interface{}) {
+	if c.intent == "" {
+		return
+	}
+	b, err := json.Marshal(map[string]interface{}{"t": id, "events": evs, "step": step})
+	if err != nil {
+		return
+	}
+	os.WriteFile(c.intent, b, 0o644)
+}
+
 func vX01Behaviour(c *vX01Cluster, b vBehaviour) ([]vX01Event, bool) {
 	for attempt := 1; attempt <= vX01Attempts; attempt++ {
 		run := &vX01Run{c: c, id: b.ID, gid: fmt.Sprintf("x01-%d-%d", b.ID, attempt)}
 		run.phaseStart = time.Now()
 		evs := []vX01Event{{T: b.ID, A: "Open", Args: map[string]interface{}{}, St: run.state(),
-			Obs: vX01Obs{A: "Open", Fired: [][]string{}, Acc: []string{}}}}
+			Obs: vX01Obs{A: "Open", Fired: [][]string{}, Acc: []string{}, Rej: []string{}, Asg: [][]interface{}{}}}}
 		for _, step := range b.Steps {
+			c.noteIntent(b.ID, evs, step)
 			evs = append(evs, run.step(step))
 			if run.doubt {
 				break
 			}
 		}
+		if !run.doubt {
+			// expiries still in flight reach the controller now (as recorded steps)
+			for _, pk := range c.parkedOf(run.gid) {
+				step := map[string]interface{}{"a": "ExpireApply", "s": pk.srv, "m": pk.member}
+				c.noteIntent(b.ID, evs, step)
+				evs = append(evs, run.step(step))
+			}
+		}
 		tc := time.Now()
+		c.noteIntent(b.ID, nil, map[string]interface{}{"a": "cleanup"})
 		run.cleanup()
 		vX01Stat("cleanup", time.Since(tc))
 		if !run.doubt {
@@ -938,6 +1103,7 @@ func TestVerifGroupLiveness(t *testing.T) {
 	clusters := make([]*vX01Cluster, workers)
 	for i := range clusters {
 		clusters[i] = vX01Start(t, i)
+		clusters[i].intent = fmt.Sprintf("%s.intent.%d", os.Getenv("VERIF_TRACE_OUT"), i)
 	}
 	defer func() {
 		for _, c := range clusters {
@@ -946,8 +1112,10 @@ func TestVerifGroupLiveness(t *testing.T) {
 		}
 	}()
 
-	results := make([][]vX01Event, len(sf.Behaviours))
-	dropped := make([]bool, len(sf.Behaviours))
+	// the events of a finished behaviour are written at once (a later death of the
+	// process must not take them along)
+	var emitMu sync.Mutex
+	nd := int32(0)
 	var wg sync.WaitGroup
 	for w := 0; w < workers; w++ {
 		wg.Add(1)
@@ -955,21 +1123,21 @@ func TestVerifGroupLiveness(t *testing.T) {
 			defer wg.Done()
 			for i := w; i < len(sf.Behaviours); i += workers {
 				evs, ok := vX01Behaviour(clusters[w], sf.Behaviours[i])
-				results[i], dropped[i] = evs, !ok
+				if !ok {
+					atomic.AddInt32(&nd, 1)
+					continue
+				}
+				emitMu.Lock()
+				for _, ev := range evs {
+					tw.Emit(ev)
+				}
+				tw.w.Flush()
+				emitMu.Unlock()
 			}
+			os.Remove(clusters[w].intent)
 		}(w)
 	}
 	wg.Wait()
-	nd := 0
-	for i, evs := range results {
-		if dropped[i] {
-			nd++
-			continue
-		}
-		for _, ev := range evs {
-			tw.Emit(ev)
-		}
-	}
 	fmt.Printf("VERIF-X01 behaviours=%d dropped_for_timing=%d timeout_ms=%d\n", len(sf.Behaviours), nd,
 		vX01T/time.Millisecond)
 	for k, v := range vX01Stats {
